@@ -140,6 +140,33 @@ func pairCases() []pairCase {
 			cs = append(cs, pairCase{sn + ":def:" + lo, f(lo, lo), f(up, lo)}, pairCase{sn + ":use:" + lo, f(lo, lo), f(lo, up)}, pairCase{sn + ":def-capital:" + lo, f(up, up), f(lo, up)})
 		}
 	}
+	// ids whose first letter is the last of the alphabet; special functions in other letter cases at a
+	// key where they are not allowed; the syntax keywords `args` / `entrypoint` of `with:`
+	for _, nm := range [][2]string{{"zip", "Zip"}, {"zeta_1", "ZETA_1"}, {"z", "Z"}, {"a9", "A9"}} {
+		lo, up := nm[0], nm[1]
+		job := func(def, use string) pairMember {
+			return pairMember{Workflow: "on: push\njobs:\n  " + def + ":\n    runs-on: ubuntu-latest\n    outputs:\n      o: x\n    steps:\n      - run: echo\n  other:\n    needs: [" + use + "]\n    runs-on: ubuntu-latest\n    steps:\n      - run: echo ${{ needs." + use + ".outputs.o }}\n"}
+		}
+		step := func(def, use string) pairMember {
+			return pairMember{Workflow: hdr + "      - id: " + def + "\n        run: echo\n      - run: echo ${{ steps." + use + ".outcome }}\n"}
+		}
+		cs = append(cs, pairCase{"job-id-first-letter:def:" + lo, job(lo, lo), job(up, lo)}, pairCase{"job-id-first-letter:use:" + lo, job(lo, lo), job(lo, up)},
+			pairCase{"step-id-first-letter:def:" + lo, step(lo, lo), step(up, lo)}, pairCase{"step-id-first-letter:use:" + lo, step(lo, lo), step(lo, up)})
+	}
+	for _, fn := range [][2]string{{"always()", "Always()"}, {"success()", "SUCCESS()"}, {"failure()", "failurE()"}, {"cancelled()", "Cancelled()"}, {"hashfiles('x')", "HashFiles('x')"}, {"hashFiles('x')", "HASHFILES('x')"}} {
+		at := func(e string) pairMember {
+			return pairMember{Workflow: "on: push\nenv:\n  A: ${{ " + e + " }}\njobs:\n  a:\n    runs-on: ubuntu-latest\n    env:\n      B: ${{ " + e + " }}\n    steps:\n      - run: echo ${{ " + e + " }}\n        if: ${{ " + e + " }}\n"}
+		}
+		cs = append(cs, pairCase{"special-function:" + fn[0], at(fn[0]), at(fn[1])})
+	}
+	for _, kw := range [][2]string{{"args", "Args"}, {"entrypoint", "ENTRYPOINT"}, {"args", "ARGS"}, {"entrypoint", "entryPoint"}} {
+		for _, uses := range []string{"actions/checkout@v4", "docker://alpine:3", "./.github/actions/my"} {
+			w := func(k string) pairMember {
+				return pairMember{Workflow: hdr + "      - uses: " + uses + "\n        with:\n          " + k + ": x\n"}
+			}
+			cs = append(cs, pairCase{"with-keyword:" + kw[1] + ":" + uses, w(kw[0]), w(kw[1])})
+		}
+	}
 	return cs
 }
 
